@@ -1,6 +1,7 @@
 // appended to air/tests/test_module/negative_tests/uncatchable_trace_related.rs in a scratch copy;
 // run: cargo test -p aquavm-air --features air-test-utils/test_with_native_code --offline --test test_module verif_f -- --test-threads 1
-// every test below makes air::execute_air panic on the pinned tree (F1, F2, F3, F6, F7, F9a, F9b)
+// every test below makes air::execute_air panic on the pinned tree (F1, F2, F3, F6, F7, F9a, F9b);
+// verif_f3b must be run under `ulimit -v 8000000`: it aborts with "memory allocation of 103079215080 bytes failed"
 #[tokio::test]
 async fn verif_f1_slider_overflow_replay() {
     let vm_peer_id_1 = "vm_peer_id_1";
@@ -190,4 +191,20 @@ async fn verif_f9b_display_fold_without_descriptors_replay() {
     let wrong_data = raw_data_from_trace(trace, cid_state);
     let result = call_vm!(peer_vm_1, <_>::default(), script, wrong_data, "");
     println!("ret_code = {} {}", result.ret_code, result.error_message);
+}
+
+
+#[tokio::test]
+async fn verif_f3b_generation_resize_oom_replay() {
+    let vm_peer_id_1 = "vm_peer_id_1";
+    let arg = json!([42, 43]);
+    let mut peer_vm_1 = create_avm(set_variable_call_service(arg), vm_peer_id_1).await;
+    let script = r#"(call "vm_peer_id_1" ("" "") [] $s)"#.to_string();
+    let mut cid_state = ExecutionCidState::new();
+    let trace = vec![
+        stream_tracked!(json!([42, 43]), 4294967294u32, cid_state, peer = vm_peer_id_1),
+    ];
+    let wrong_data = raw_data_from_trace(trace, cid_state);
+    let result = call_vm!(peer_vm_1, <_>::default(), script, wrong_data, "");
+    println!("ret_code = {}", result.ret_code);
 }
